@@ -35,6 +35,10 @@ type Avoid struct {
 	// D10/D11: shapes on which -optimize-grammar changes the language
 	// (adjacent literals around an inlined rule, adjacent inverted classes).
 	OptMerge bool
+	// D5: a rule with labels in its top scope that is referenced more than
+	// once (inlined twice into one scope by -optimize-grammar: duplicate
+	// parameter names even though every label is unique).
+	OptDupLabels bool
 	// D13: -optimize-grammar on grammars with throw/recover or undefined
 	// rule references (pvtool, pve2e).
 	OptThrow bool
@@ -56,6 +60,7 @@ var avoidNames = []struct {
 	{"quotebyte", func(a *Avoid) *bool { return &a.QuoteByteRune }},
 	{"boote000", func(a *Avoid) *bool { return &a.BootE000 }},
 	{"optmerge", func(a *Avoid) *bool { return &a.OptMerge }},
+	{"optduplabels", func(a *Avoid) *bool { return &a.OptDupLabels }},
 	{"optthrow", func(a *Avoid) *bool { return &a.OptThrow }},
 	{"norecoverpanic", func(a *Avoid) *bool { return &a.NoRecoverPanic }},
 }
